@@ -5,3 +5,4 @@ import TLX.Props.C06
 import TLX.Props.C07
 import TLX.Props.C13
 import TLX.Props.C11
+import TLX.Props.C15
